@@ -149,7 +149,7 @@ def seq_proc(lib, p11drv, seed, idx, shim):
                             if lab in B.handles:
                                 B.handles[new] = B.handles.pop(lab)
                 else:
-                    new = hexs('b%d' % rng.randrange(999))
+                    new = hexs('b%d.%d' % (rng.randrange(999), len(trace)))      # unique: the search by this value must find exactly this object
                     r = A.p.op('setattr %s %s 0x102=x:%s' % (A.s, h_, new))
                     trace.append(('P%d ' % a + A.p.trace[-1][0][:120], r))
                     if r.get('rv') == '0x0':
